@@ -7,6 +7,8 @@ import random
 from vsim import core, policy, load
 
 FINAL = ('DONE', 'FAILED', 'SKIPPED')
+_STATE = {}
+WALL_LIMIT = 25.0      # seconds of real time without the run ending
 MALFORMED = ('none', 'notpair', 'triple', 'badstatus', 'nonmapping')
 # a mapping that cannot be merged: it replaces the task's own entry (a mapping
 # holding its status and clocks) by something that is not a mapping
@@ -90,7 +92,11 @@ def gen_scenario(rng, *, family='well', cyclic=False, init_env=False,
     # dependency dictionaries, from the tasks' own dependency sets (the way
     # the run command builds them), or with a sub-graph embedded as one node
     scn['graph_api'] = rng.choice(('add', 'add', 'dict', 'tasks', 'nested'))
-    if cyclic and scn['graph_api'] in ('tasks', 'nested'):
+    if cyclic and scn['graph_api'] == 'nested':
+        scn['graph_api'] = 'add'
+    if cyclic and scn['graph_api'] == 'tasks' and _STATE.get('spinning'):
+        # (a process that has already seen the closure of a cyclic job spin
+        # does not wait for it again and again)
         scn['graph_api'] = 'add'
     if scn['graph_api'] == 'nested':
         if ntask >= 3:
@@ -518,8 +524,12 @@ def build_graphs(scn, mods, objs):
         needed = set()
         for spec in specs:
             needed.update(spec['hard'] + spec['soft'])
-        tops = [objs[i] for i in range(len(specs)) if i not in needed]
+        tops = [objs[i] for i in range(len(specs)) if i not in needed] or \
+            list(objs)
         tasks = mods['task'].close_dependency_graph(tops)
+        if len(tasks) < len(objs):
+            # (a cycle that nothing outside it depends on)
+            tasks = mods['task'].close_dependency_graph(list(objs))
         hard, soft = dg(), dg()
         for tsk in tasks:
             hard.add_node(tsk)
@@ -592,7 +602,7 @@ def run_scenario(scn, chooser, *, max_steps=200000):
     recorder = Recorder()
     lf = load.line_files(mods) if scn.get('linemode') else None
     sim = core.Sim(chooser, tick=scn['tick'], max_steps=max_steps,
-                   line_files=lf, keep_trace=False)
+                   line_files=lf, keep_trace=False, wall_limit=WALL_LIMIT)
     sim.fail_thread_start = scn.get('fail_thread_start')
     holder = {}
 
@@ -869,6 +879,13 @@ def oracle_c03(scn, res):
     elif kind == 'steplimit':
         viol.append(('no-progress', 'no-progress:steplimit',
                      {'steps': res.sim.steps, 'alive': res.alive}))
+    elif kind == 'wall-timeout':
+        # the thread that holds the baton computes for ever without reaching
+        # a synchronisation point (typical run: milliseconds)
+        _STATE['spinning'] = True
+        viol.append(('no-progress', 'no-progress:spinning',
+                     {'wall_limit_s': WALL_LIMIT, 'steps': res.sim.steps,
+                      'graph_api': scn.get('graph_api')}))
     elif kind == 'ok':
         if res.alive_at_return and res.second_want is None:
             viol.append(('worker-leak', 'worker-alive-when-the-call-returns',
